@@ -150,4 +150,33 @@ def dnToBEBy (t : DnExportArms) (d : DataNumber) : Out Bytes :=
   | some a => interpDnExportArm a d
   | none => .panic
 
+/-! ### conversions used by the common view (`TryFrom<&FieldValue> for u8/u16/u32/…/String/IpAddr`) -/
+
+/-- `impl_try_from!(t => V, …)`: a value converts to the integer type `ty` iff it is a `DataNumber` of exactly the variant the
+    macro invocation pairs with `ty` (no widening, no narrowing) -/
+def convNumBy (t : List (String × DnArm)) (ty : String) : FieldValue → Option Int
+  | .num d =>
+    match t.lookup ty with
+    | some arm => if d.armTag = arm then some d.asInt else none
+    | none => none
+  | _ => none
+
+/-- `TryFrom<&FieldValue> for String`: the text held by the accepted kinds -/
+def convStringBy (tags : List VTag) (v : FieldValue) : Option Bytes :=
+  if tags.contains v.tag then
+    match v with
+    | .str s => some s
+    | .mac raw => some (macText raw)
+    | _ => none
+  else none
+
+/-- `TryFrom<&FieldValue> for IpAddr`: (is_v6, value) of the accepted kinds -/
+def convIpBy (tags : List VTag) (v : FieldValue) : Option (Bool × Nat) :=
+  if tags.contains v.tag then
+    match v with
+    | .ip4 n => some (false, n)
+    | .ip6 n => some (true, n)
+    | _ => none
+  else none
+
 end Netflow
